@@ -27,6 +27,8 @@ pub enum Mode {
     Light,
     /// Like `Light` with a cap of 300 schedules (expressions with hundreds of rules).
     Tiny,
+    /// Like `Light` with a cap of 800 schedules (libFuzzer target: throughput matters).
+    Fuzz,
     /// Cap each call at `FULL_WORK_BOUND`; exceeding it is a violation (unbounded work).
     Full,
 }
@@ -41,6 +43,7 @@ fn call<T>(mode: Mode, tally: &mut Tally, what: &str, f: impl FnOnce() -> T) -> 
     verif_hooks::set_limit(Some(match mode {
         Mode::Light => LIGHT_CAP,
         Mode::Tiny => 300,
+        Mode::Fuzz => 800,
         Mode::Full => FULL_WORK_BOUND,
     }));
     let r = guard(f);
@@ -49,7 +52,7 @@ fn call<T>(mode: Mode, tally: &mut Tally, what: &str, f: impl FnOnce() -> T) -> 
     match r {
         Ok(v) => Ok(Some(v)),
         Err(p) if p.contains(verif_hooks::LIMIT_MARKER) => match mode {
-            Mode::Light | Mode::Tiny => {
+            Mode::Light | Mode::Tiny | Mode::Fuzz => {
                 tally.too_far += 1;
                 Ok(None)
             }
